@@ -1,4 +1,5 @@
 //verif:pkg bbq/leb128
+//verif:assume decoder input buffers <= 11 bytes; integer values full width
 package PKGNAME
 
 type zzLebDec struct {
